@@ -42,7 +42,11 @@ impl Complex::<f64> {
     #[inline]
     pub fn asinh(&self) -> Complex::<f64> {
         let z = self.clone();
-        ( ( z * z + 1.0 ).sqrt() + z ).ln()
+        // ( sqrt( z^2 + 1 ) + z )( sqrt( z^2 + 1 ) - z ) = 1: the smaller of the two is a difference of nearly equal
+        // terms and is formed as the reciprocal of the other
+        let root = ( z * z + 1.0 ).sqrt();
+        let ( plus, minus ) = ( root + z, root - z );
+        if plus.abs() >= minus.abs() { plus.ln() } else { ( Cmplx::one() / minus ).ln() }
     }
 
     /// Return the inverse hyperbolic cosine of a complex number z ( acosh(z) )
